@@ -63,10 +63,14 @@ def _solve_one(job):
 def _solve_plain(job):
     name, smt2, input_names, timeout_s, use_cvc5 = job
     t0 = time.time()
-    first = min(timeout_s, 4) if use_cvc5 else timeout_s
+    first = min(timeout_s, 6) if use_cvc5 else timeout_s
     res = _z3_once(name, smt2, input_names, first)
     if res["result"] == "unknown" and use_cvc5:
-        r2 = run_cvc5(smt2, timeout_s)
+        if isinstance(smt2, tuple):
+            txt = _OBLS[smt2[0]].smt2(byte_ranges=smt2[1])
+        else:
+            txt = smt2
+        r2 = run_cvc5(txt, timeout_s)
         if r2["result"] in ("unsat", "sat"):
             r2["name"] = name
             r2["reason"] = f"z3: unknown ({res['reason']}) after {first}s; decided by cvc5"
@@ -84,15 +88,30 @@ def _solve_plain(job):
     return res
 
 
+_OBLS = []          # obligations of the current run; forked workers index into it (no SMT2 round trip for z3)
+
+
 def _z3_once(name, smt2, input_names, timeout_s):
     t0 = time.time()
     res = {"name": name, "backend": "z3 " + z3.get_version_string(), "result": "unknown", "time_s": 0.0,
            "model": None, "reason": ""}
     try:
-        ctx = z3.Context()
-        s = z3.Solver(ctx=ctx)
-        s.set("timeout", int(timeout_s * 1000))
-        s.from_string(smt2)
+        if isinstance(smt2, tuple):
+            idx, ranged = smt2
+            o = _OBLS[idx]
+            s = z3.Solver()
+            s.set("timeout", int(timeout_s * 1000))
+            for c in o.pc:
+                s.add(c)
+            s.add(z3.Not(o.goal))
+            if ranged:
+                for f in o.byte_range_facts():
+                    s.add(f)
+        else:
+            ctx = z3.Context()
+            s = z3.Solver(ctx=ctx)
+            s.set("timeout", int(timeout_s * 1000))
+            s.from_string(smt2)
         r = s.check()
         res["result"] = str(r)
         if r == z3.sat:
@@ -136,10 +155,12 @@ def run_cvc5(smt2, timeout_s):
 
 def solve_all(obls, timeout_s=30, procs=None, use_cvc5=True):
     jobs = []
-    for o in obls:
+    global _OBLS
+    _OBLS = list(obls)
+    for i, o in enumerate(obls):
         has_bytes = any(z3.is_seq(t) and not z3.is_string(t) and t.sort() == z3.SeqSort(z3.IntSort()) for t in o.inputs.values())
-        jobs.append((o.name, o.smt2(), set(str(k) for k in o.inputs), timeout_s, use_cvc5,
-                     o.smt2(byte_ranges=True) if has_bytes else None))
+        jobs.append((o.name, (i, False), set(str(k) for k in o.inputs), timeout_s, use_cvc5,
+                     (i, True) if has_bytes else None))
     procs = procs or min(16, max(1, len(jobs)))
     if not jobs:
         return []
